@@ -594,7 +594,13 @@ func (e *Exec) typeAssert(f *Frame, in *ssa.TypeAssert) {
 			if iv.T == runtimeErrorType || iv.T == engineErrorPtrType {
 				// our synthetic errors: implement error only
 				itf := in.AssertedType.Underlying().(*types.Interface)
-				okv = itf.NumMethods() == 0 || (itf.NumMethods() == 1 && itf.Method(0).Name() == "Error")
+				okv = true
+				for mi := 0; mi < itf.NumMethods(); mi++ {
+					mn := itf.Method(mi).Name()
+					if mn != "Error" && !(mn == "RuntimeError" && iv.T == runtimeErrorType) {
+						okv = false
+					}
+				}
 			} else {
 				okv = types.Implements(iv.T, in.AssertedType.Underlying().(*types.Interface))
 			}
